@@ -435,6 +435,126 @@ Definition lib_session_app (fixed server : bool) (limit : Z) (apps : list (nat *
   let* (cr, codes) := read_loop_app (S (length inp)) 0 fixed apps (new_conn server limit inp) [] [] in
   Ok (rev' (snd cr), rev' (c_out (fst cr)), rev' codes).
 
+(* ---- the reader on a connection that may have permessage-deflate NEGOTIATED (neg = true:
+   newDecompressionReader != nil).  Step 2 as the code has it (after fix ddfeb27): on a text / binary
+   frame with RSV1 set the bit is cleared (the message is compressed) and the REST of the reserved
+   bits is checked; everywhere else RSV1 is a reserved bit like the others.  neg = false is
+   [advance_frame] (lemma advance_frame_gen_false).  Inflating the payload of a compressed message is
+   not modelled: sessions run through this reader carry no frame with RSV1 alone on a first data
+   frame. *)
+Definition head_rsv (neg : bool) (p0 : N) : N :=
+  let frameType := Z.of_N (N.land p0 15) in
+  let p0' := if neg && negb (N.land p0 rsv1Bit =? 0)%N && is_data frameType then N.ldiff p0 rsv1Bit else p0 in
+  N.land p0' rsvMask.
+
+Definition af_head_gen (neg : bool) (c : conn) : mres (bool * Z * bool) :=
+  mbind (c_readn 2 c) (fun c p =>
+  match p with
+  | [p0; p1] =>
+    let final := negb (N.land p0 finalBit =? 0)%N in
+    let frameType := Z.of_N (N.land p0 15) in
+    let mask := negb (N.land p1 maskBit =? 0)%N in
+    let c := set_rem c (Z.of_N (N.land p1 127)) in
+    let rsv := head_rsv neg p0 in
+    if negb (rsv =? 0)%N then handle_protocol_error (msg_rsv rsv) c
+    else if is_control frameType then
+      if websocket_maxControlFramePayloadSize <? c_rem c then handle_protocol_error msg_ctl_len c
+      else if negb final then handle_protocol_error msg_ctl_final c
+      else MOk c (final, frameType, mask)
+    else if is_data frameType then
+      if negb (c_final c) then handle_protocol_error msg_start c
+      else MOk (set_final c final) (final, frameType, mask)
+    else if frameType =? websocket_continuationFrame then
+      if c_final c then handle_protocol_error msg_cont c
+      else MOk (set_final c final) (final, frameType, mask)
+    else handle_protocol_error (msg_opcode frameType) c
+  | _ => MPanic 1
+  end).
+
+Definition advance_frame_gen (neg fixed : bool) (c : conn) : mres Z :=
+  mbind (af_skip c) (fun c _ =>
+  mbind (af_head_gen neg c) (fun c h =>
+  let '(final, frameType, mask) := h in
+  mbind (af_len fixed c) (fun c _ =>
+  mbind (af_mask mask c) (fun c _ =>
+  if (frameType =? websocket_continuationFrame) || (frameType =? websocket_TextMessage)
+     || (frameType =? websocket_BinaryMessage)
+  then af_data fixed frameType c
+  else af_control frameType c)))).
+
+Fixpoint next_reader_loop_gen (fuel : nat) (neg fixed : bool) (c : conn) : res (conn * option Z) :=
+  match c_err c with
+  | Some _ => Ok (c, None)
+  | None =>
+    match fuel with
+    | O => Err 99
+    | S f =>
+      match advance_frame_gen neg fixed c with
+      | MPanic s => Panic s
+      | MErr c e => Ok (set_err c (Some e), None)
+      | MOk c t => if is_data t then Ok (c, Some t) else next_reader_loop_gen f neg fixed c
+      end
+    end
+  end.
+
+Fixpoint read_all_gen (fuel : nat) (neg fixed : bool) (c : conn) (acc : list bytes) : res (conn * (list bytes + rerr)) :=
+  match fuel with
+  | O => Err 99
+  | S f =>
+    match c_err c with
+    | Some e => Ok (c, inr (match e with EEof => EUeof | _ => e end))
+    | None =>
+      if 0 <? c_rem c then
+        match split_at (Z.to_N (c_rem c)) (c_in c) [] with
+        | Some (p, rest) =>
+          let p := if c_server c then mask_bytes (c_key c) 0 p else p in
+          read_all_gen f neg fixed (set_rem (set_in c rest) 0) (p :: acc)
+        | None =>
+          let c := set_rem (set_in c []) (c_rem c - Z.of_N (lenN (c_in c))) in
+          Ok (set_err c (Some EUeof), inr EUeof)
+        end
+      else if c_final c then Ok (c, inl acc)
+      else
+        match advance_frame_gen neg fixed c with
+        | MPanic s => Panic s
+        | MErr c e => read_all_gen f neg fixed (set_err c (Some e)) acc
+        | MOk c t =>
+          if is_data t then read_all_gen f neg fixed (set_err c (Some EInternal)) acc
+          else read_all_gen f neg fixed c acc
+        end
+    end
+  end.
+
+Definition read_message_gen (neg fixed : bool) (c : conn) : res (conn * rresult) :=
+  let fuel := S (S (length (c_in c))) in
+  let c := set_len c 0 in
+  let* (c, r) := next_reader_loop_gen fuel neg fixed c in
+  match r with
+  | None => next_reader_fail c
+  | Some t =>
+    let* (c, r) := read_all_gen (fuel + fuel) neg fixed c [] in
+    match r with
+    | inl chunks => Ok (c, RMsg t (concat (rev' chunks)))
+    | inr e => Ok (c, RErr e)
+    end
+  end.
+
+Fixpoint read_loop_gen (fuel : nat) (neg fixed : bool) (c : conn) (acc : list rresult) : res (conn * list rresult) :=
+  match fuel with
+  | O => Err 99
+  | S f =>
+    let* (c, r) := read_message_gen neg fixed c in
+    match r with
+    | RMsg _ _ => read_loop_gen f neg fixed c (r :: acc)
+    | RErr _ => Ok (c, r :: acc)
+    end
+  end.
+
+Definition lib_session_gen (neg fixed server : bool) (limit : Z) (inp : bytes)
+  : res (list rresult * list (Z * bytes)) :=
+  let* (c, rs) := read_loop_gen (S (length inp)) neg fixed (new_conn server limit inp) [] in
+  Ok (rev' rs, rev' (c_out c)).
+
 (* ---- partial application reads: messageReader.Read(b) call by call, len(b) = want (0 and 1
    included), across frame boundaries, with readMaskPos.  The whole transport content is taken to be
    in the bufio buffer already (the harness arranges that), so br.Read hands over
@@ -618,6 +738,15 @@ Definition rfc_violation (server is_open : bool) (h : fhdr) : bool :=
   || ((f_op h =? 0) && negb is_open)                           (* 5.4: continuation without a started message *)
   || (((f_op h =? 1) || (f_op h =? 2)) && is_open).            (* 5.4: new data frame inside a fragmented message *)
 
+(* with permessage-deflate negotiated (RFC 7692 6): RSV1 becomes legal on the first frame of a data
+   message and nowhere else; RSV2 / RSV3 never do.  The header as the framing rules see it: *)
+Definition rfc_effective_rsv (negotiated : bool) (h : fhdr) : N :=
+  if negotiated && ((f_op h =? 1) || (f_op h =? 2)) && (4 <=? f_rsv h) then f_rsv h - 4 else f_rsv h.
+
+Definition rfc_violation_neg (negotiated server is_open : bool) (h : fhdr) : bool :=
+  rfc_violation server is_open
+    (mkHdr (f_fin h) (rfc_effective_rsv negotiated h) (f_op h) (f_masked h) (f_ext h) (f_len h) (f_key h)).
+
 (* 5.5.1: Close body = optional 2-byte status + UTF-8 reason *)
 Definition rfc_close (p : bytes) : outcome :=
   match p with
@@ -766,6 +895,21 @@ Definition run_c14 (c : sx) : sx :=
       | Ok (rs, ws, codes) =>
         SL [SL (map sx_result rs); SL (map (fun w => SL [SZ (fst w); SB (snd w)]) ws);
             SL (map sx_event evs); sx_outcome o; SL (map sN codes)]
+      | Err _ => SL [SZ 1]
+      | Panic _ => s_panic
+      end
+    else bad_case
+  | SL [SZ fixed; SZ server; SZ limit; SZ _; SB wire; SL []; SL []; SL [SZ _; SZ enable; SZ offer]] =>
+    (* connection made by the real Upgrade / Dial handshake; the extension is negotiated iff enabled
+       and offered / accepted.  The receiver's verdict is rfc_receive's: these sessions carry no frame
+       with RSV1 alone on a first data frame, every other reserved-bit pattern is a violation whether
+       negotiated or not (rfc_violation_neg) *)
+    if wf_bytesb wire then
+      let '(evs, o) := rfc_receive (server =? 1) limit wire in
+      match lib_session_gen ((enable =? 1) && (offer =? 1)) (fixed =? 1) (server =? 1) limit wire with
+      | Ok (rs, ws) =>
+        SL [SL (map sx_result rs); SL (map (fun w => SL [SZ (fst w); SB (snd w)]) ws);
+            SL (map sx_event evs); sx_outcome o]
       | Err _ => SL [SZ 1]
       | Panic _ => s_panic
       end
